@@ -1,7 +1,7 @@
 (** C14 -- property file: the full statement, what is proved (closed by [exact]), the instantiation obligation on
     the facts regenerated from /repo, non-vacuity examples, Print Assumptions.  The refutations of the full statement
     on the faithful model (one per known finding) are in props/C14_refuted.v. *)
-From SF Require Import Base.Val C14.Writer C14.WriterProof C14.Views.
+From SF Require Import Base.Val C14.Writer C14.WriterProof C14.Views C14.Builder.
 From Gen Require Import C14Facts.
 Open Scope string_scope.
 
@@ -139,6 +139,25 @@ Theorem C14_views_do_not_touch_writes :
 Proof. exact (views_do_not_touch_writes gen_cfg gen_residue). Qed.
 Print Assumptions C14_views_do_not_touch_writes.
 
+(** builder calls: on every flag state, mode() / byName / format() change their own flag and keep the others (re-checked
+    against the regenerated builder on every run) ... *)
+Lemma gen_bcfg_ok : bcfg_ok gen_bcfg = true.
+Proof. vm_compute. reflexivity. Qed.
+
+(** ... hence histories whose writes are built by ANY sequence of builder calls, in any order, refine the spec *)
+Theorem C14_partial_builder :
+  forall ops xs, y_hist_ok gen_cfg gen_bcfg gen_residue xs ops = true ->
+    y_s_run (x_abs xs) ops
+    = (x_abs (fst (y_m_run gen_cfg gen_bcfg gen_residue xs ops)), snd (y_m_run gen_cfg gen_bcfg gen_residue xs ops)).
+Proof. exact (y_modes_refine_spec gen_cfg gen_bcfg gen_residue gen_cfg_ok gen_bcfg_ok). Qed.
+Print Assumptions C14_partial_builder.
+
+Theorem C14_byname_survives_any_order :
+  forall pre post, forallb call_known (pre ++ BByName :: post) = true ->
+    w_by_name (brun gen_bcfg (pre ++ BByName :: post)) = true.
+Proof. exact (fun pre post => byname_survives_any_order gen_bcfg pre post gen_bcfg_ok). Qed.
+Print Assumptions C14_byname_survives_any_order.
+
 (** * The domain is inhabited: all six modes on a table and on files, insertInto positional and byName (after the
       table has been read once), reads, catalog calls, a drop, failing frames on a table and on an existing file *)
 Definition fr_as : tbl := mkTbl [("a", TInt); ("s", TStr)] [[VInt 1; VStr "x"]; [VInt 2; VNull]].
@@ -192,3 +211,13 @@ Example C14_namesakes_nonempty :
   = true.
 Proof. vm_compute. reflexivity. Qed.
 
+Example C14_builder_nonempty :
+  y_hist_ok gen_cfg gen_bcfg gen_residue (m_init, [])
+    [YSave [] "t" None (DGood fr_as);
+     YInsert [BByName; BMode (Some "append"); BFormat "parquet"] "t" (DGood fr_sa);
+     YSave [BFormat "csv"; BByName; BMode (Some "append")] "t" None (DGood fr_sa);
+     YSave [BMode (Some "overwrite"); BByName] "t" None (DGood fr_as2);
+     YWrite [BByName; BMode (Some "overwrite"); BFormat "json"] "p" FParquet None (DGood fr_as);
+     YOp (XOp (OpReadTable "t"))]
+  = true.
+Proof. vm_compute. reflexivity. Qed.
